@@ -30,8 +30,16 @@ MemArgs(fn) ==
     [] fn = "ParseKey" -> <<"raw">>
 Regions(fn) == {<<MemArgs(fn)[j], w>> : j \in 1..Len(MemArgs(fn)), w \in {"len", "spare"}}
 
+(* Memory a call RETURNED to its caller is the caller's from then on: the      *)
+(* slices returned by earlier calls form the region "result" (in-length bytes  *)
+(* and spare capacity) of every later call.                                    *)
+ResultRegions == {<<"result", "len">>, <<"result", "spare">>}
+CallerMemory(fn) == Regions(fn) \cup ResultRegions
+
 (* THE LAW: the only memory a call may write is the spare capacity of the      *)
-(* destination an AEAD caller passes explicitly.                               *)
+(* destination an AEAD caller passes explicitly - never an argument, never a   *)
+(* result handed out by an earlier call (whether or not it comes back as an    *)
+(* argument).                                                                  *)
 MayWrite(cf) == IF cf.fn \in AeadFns THEN {<<"dst", "spare">>} ELSE {}
 
 SpareVals == <<0, 1, 15, 16, 17, 64>>
@@ -78,6 +86,44 @@ PadMem(fn) ==
 ParseKinds == {"raw", "base64", "jwk", "pem", "badjson"}
 ParseMem == WithSV({<<"ParseKey", k, l, IF k = "badjson" THEN "fail_parse" ELSE "ok">> : k \in ParseKinds, l \in {16, 24, 32, 33}})
 
+(* "Results stay the caller's": conc goroutines each make keep successful      *)
+(* calls and keep what they return, then one more call (ok, failing, or        *)
+(* "chained": the previous result IS the argument named by chain); everything  *)
+(* retained is compared with its snapshot after every call.                    *)
+IsRet(cf) == "keep" \in DOMAIN cf
+RetFns == {"Encrypt", "EncryptSymmetric", "Decrypt", "DecryptSymmetric", "EncryptPublicKey", "DecryptPrivateKey", "SignPrivateKey",
+           "aeskw.Wrap", "aeskw.Unwrap", "padding.PadPKCS7", "padding.UnpadPKCS7", "aescbcaead.Seal", "aescbcaead.Open"}
+RetKeeps == IF Small THEN {1, 3} ELSE {1, 2, 3}
+RetConcs == IF Small THEN {1, 2} ELSE {1, 2, 4}
+NoRow == [fam |-> "none", kind |-> "none", nonce |-> 0, tag |-> 0, hash |-> 0, keyBits |-> {0}, keyKind |-> "none", alg |-> ""]
+RetChains(fn, r) ==
+  CASE fn \in {"Decrypt", "DecryptSymmetric"} /\ r.kind = "sym" ->
+         {"associatedData", "ciphertext", "key"} \cup (IF r.nonce > 0 THEN {"nonce"} ELSE {}) \cup (IF r.tag > 0 THEN {"tag"} ELSE {})
+    [] fn \in {"Encrypt", "EncryptSymmetric", "EncryptPublicKey"} -> {"plaintext", "associatedData"}
+    [] fn \in {"Decrypt", "DecryptPrivateKey"} /\ r.kind = "asym" -> {"associatedData"}
+    [] fn = "aeskw.Wrap" -> {"cek"}
+    [] fn = "aeskw.Unwrap" -> {"cipherText"}
+    [] fn \in {"padding.PadPKCS7", "padding.UnpadPKCS7"} -> {"buf"}
+    [] fn = "aescbcaead.Seal" -> {"plaintext", "additionalData"}
+    [] fn = "aescbcaead.Open" -> {"additionalData", "nonce"}
+    [] OTHER -> {}
+(* message length: such that the previous result fits the argument it becomes *)
+RetLen(fn, r, ch) ==
+  IF fn \in {"Decrypt", "DecryptSymmetric"} /\ r.kind = "sym" /\ ch = "key" THEN GoodBits(r) \div 8
+  ELSE IF fn \in {"Decrypt", "DecryptSymmetric"} /\ r.kind = "sym" /\ ch = "nonce" THEN r.nonce
+  ELSE IF fn \in {"Decrypt", "DecryptSymmetric"} /\ r.kind = "sym" /\ ch = "tag" THEN r.tag
+  ELSE IF fn = "aescbcaead.Open" /\ ch = "nonce" THEN 16
+  ELSE IF r.fam = "kw" THEN 24 ELSE IF r.fam = "cbcnopad" THEN 32
+  ELSE IF r.kind = "asym" THEN 24
+  ELSE IF r.kind = "sig" THEN (IF r.fam = "eddsa" THEN 32 ELSE r.hash)
+  ELSE 33
+RetCf(fn, alg, len, path, k, ch, n) == Cf(fn, alg, len, path, 6) @@ [keep |-> k, chain |-> ch, conc |-> n]
+RetMem(fn, r) ==
+  LET shapes == {<<"ok", "none">>, <<"fail", "none">>} \cup {<<"chained", ch>> : ch \in RetChains(fn, r)}
+      fit == {x \in shapes : r.kind # "sym" \/ r.fam = "none" \/ PtOK(r, 0, RetLen(fn, r, x[2]))}
+      real == {x \in fit : ~(fn = "aescbcaead.Seal" /\ x[1] = "fail")}
+  IN {RetCf(fn, r.alg, RetLen(fn, r, x[2]), x[1], k, x[2], n) : x \in real, k \in RetKeeps, n \in RetConcs}
+
 MG(part, alg, fn) == [part |-> part, alg |-> alg, fn |-> fn]
 MemGroups ==
        {MG("sym", r.alg, fn) : r \in SymRows, fn \in SymCallFns}
@@ -87,6 +133,12 @@ MemGroups ==
   \cup {MG("aead", r.alg, fn) : r \in AeadRows, fn \in AeadFns \cup {"aescbcaead.New"}}
   \cup {MG("pad", "", fn) : fn \in {"padding.PadPKCS7", "padding.UnpadPKCS7"}}
   \cup {MG("parse", "", "ParseKey")}
+  \cup {MG("ret", r.alg, fn) : r \in SymRows, fn \in SymCallFns}
+  \cup {MG("ret", r.alg, fn) : r \in AsymRows, fn \in AsymCallFns}
+  \cup {MG("ret", r.alg, "SignPrivateKey") : r \in SigRows}
+  \cup {MG("ret", r.alg, fn) : r \in KwRows, fn \in KwFns}
+  \cup {MG("ret", r.alg, fn) : r \in AeadRows, fn \in AeadFns}
+  \cup {MG("ret", "", fn) : fn \in {"padding.PadPKCS7", "padding.UnpadPKCS7"}}
 MemGroupConfigs(g) ==
   CASE g.part = "sym" -> SymMem(Row(g.alg), g.fn)
     [] g.part = "asym" -> AsymMem(Row(g.alg), g.fn)
@@ -95,17 +147,18 @@ MemGroupConfigs(g) ==
     [] g.part = "aead" -> AeadMem(Row(g.alg), g.fn)
     [] g.part = "pad" -> PadMem(g.fn)
     [] g.part = "parse" -> ParseMem
+    [] g.part = "ret" -> RetMem(g.fn, IF g.alg = "" THEN NoRow ELSE Row(g.alg))
 MemGroupOf(cf) ==
-  IF cf.fn = "ParseKey" THEN MG("parse", "", cf.fn)
+  IF IsRet(cf) THEN MG("ret", cf.alg, cf.fn)
+  ELSE IF cf.fn = "ParseKey" THEN MG("parse", "", cf.fn)
   ELSE IF cf.fn \in {"padding.PadPKCS7", "padding.UnpadPKCS7"} THEN MG("pad", "", cf.fn)
   ELSE IF cf.fn \in KwFns THEN MG("kw", cf.alg, cf.fn)
   ELSE IF cf.fn \in AeadFns \cup {"aescbcaead.New"} THEN MG("aead", cf.alg, cf.fn)
   ELSE IF cf.alg \in Names(Rows) THEN MG(Row(cf.alg).kind, cf.alg, cf.fn)
   ELSE MG("none", cf.alg, cf.fn)
 InConfigs(cf) == MemGroupOf(cf) \in MemGroups /\ cf \in MemGroupConfigs(MemGroupOf(cf))
-RECURSIVE SumMemCard(_)
-SumMemCard(S) == IF S = {} THEN 0 ELSE LET g == CHOOSE x \in S : TRUE IN Cardinality(MemGroupConfigs(g)) + SumMemCard(S \ {g})
-NumConfigsOf(GS) == SumMemCard(GS)
+CardOfMemGroup(g) == Cardinality(MemGroupConfigs(g))
+NumConfigsOf(GS) == MapThenSumSet(CardOfMemGroup, GS)
 DescribeCf(cf) ==
   LET n == Len(MemArgs(cf.fn)) IN
   cf @@ [args |-> MemArgs(cf.fn), spares |-> SpareVec(cf.sv, n),
@@ -122,5 +175,8 @@ MemSane ==
   /\ \A fn \in MemFns : \A j \in 1..Len(MemArgs(fn)) : {SpareVec(k, Len(MemArgs(fn)))[j] : k \in 0..(NSV - 1)} = {0, 1, 15, 16, 17, 64}
   /\ \A g \in MemGroups : \E cf \in MemGroupConfigs(g) : cf.path = "ok"
   /\ \A g \in MemGroups : g.fn \notin {"aescbcaead.Seal"} => \E cf \in MemGroupConfigs(g) : cf.path # "ok"
+  \* results stay the caller's: every function that returns a slice, alone and concurrently, with and without chaining
+  /\ \A fn \in RetFns : \E g \in MemGroups : g.part = "ret" /\ g.fn = fn
+  /\ \A g \in MemGroups : g.part = "ret" => \A cf \in MemGroupConfigs(g) : cf.keep >= 1 /\ cf.conc >= 1 /\ MayWrite(cf) \cap ResultRegions = {}
 
 =============================================================================
